@@ -450,7 +450,8 @@ def evaluate(ctx, cirq, mods, cases):
     shards, rows_meta = [], []
     SH = 24
     for s0 in range(0, len(cases), SH):
-        lines = [gates.COQ_HEADER + 'From VF Require Import Sim.Ref.\n']
+        lines = [gates.COQ_HEADER + 'From VF Require Import Sim.Ref Sim.CtrlApply Sim.SubBlock.\n'
+                 'Definition mat_tab (dims : list nat) (U : mat (K:=FC)) : matrix (K:=FC) := map (fun r => map (fun c => U r c) (enum dims)) (enum dims).\n']
         checks = []
         for ci, case in enumerate(cases[s0:s0 + SH]):
             gi = s0 + ci
@@ -487,6 +488,18 @@ def evaluate(ctx, cirq, mods, cases):
                 ctx.count(name.split('[')[0], [case.key(), name, order], case.nontrivial(),
                           sample=dict(dims=case.dims, ops=[[o.g.fam, o.g.p if o.g.fam != 'Matrix' else '<matrix>', o.wires] for o in case.ops],
                                       entry=name, qubit_order=order))
+            for bi, seg in enumerate(getattr(case, 'segs', [])):
+                # the model of CircuitOperation._unitary_'s one-qudit fast path (fold_pieces, mpow_f), on the block's own pieces
+                if seg[0] == 'block' and len({w for o in seg[1] for w in o.wires}) == 1:
+                    body = list(seg[1]) if seg[2] > 0 else [circuits.Op(inverse_of(o.g), o.wires) for o in reversed(seg[1])]
+                    pieces = '; '.join((f'PMat (mat_of FOps [2%nat] (gate_model FOps {o.g.coq()}))' if o.wires else
+                                        f'PScal (mget FOps (gate_model FOps {o.g.coq()}) 0 0)') for o in body)
+                    q = cirq.LineQubit(0)
+                    cop = cirq.CircuitOperation(cirq.FrozenCircuit(o.g.cirq_gate(cirq, mods).on(*([q] if o.wires else [])) for o in seg[1]), repetitions=seg[2])
+                    u = np.asarray(cirq.unitary(cop))
+                    checks.append(f'fcll_close {flt(TOL128)} (mat_tab [2%nat] (mpow_f FOps [2%nat] (fold_pieces FOps [2%nat] [{pieces}]) {abs(seg[2])}%nat)) {gates.fmat(u)}')
+                    rows_meta.append((len(shards), len(checks) - 1, gi, f'cirq.unitary(CircuitOperation)[one-qubit block {bi}]', [0], None, u, 'unitary', TOL128))
+                    ctx.count('CircuitOperation._unitary_[fast path model]', [case.key(), bi], True)
         lines.append('Definition checks : list bool := [\n' + ';\n'.join(checks) + '].')
         lines.append('Eval vm_compute in failing (fun b => b) checks.')
         shards.append((f'c01_{ctx.seed}_{len(shards)}', '\n'.join(lines) + '\n'))
